@@ -443,6 +443,69 @@ func (c *c11ctx) ruleR2() {
 	}
 	closeOnNonKafka("(*Conn).do", false)
 	closeOnNonKafka("(*Batch).close", true)
+	// Conn methods that wait for their response themselves and decode it inline (not through do(), which has the rule
+	// above): once waitResponse handed them the frame, every exit with an error that is not a broker error code
+	// closes the connection — a cut or stalled response leaves the stream at an unknown position
+	root := p.SSAPkg("")
+	nInline := 0
+	for _, fn := range p.ModuleFunctions() {
+		if fn.Pkg != root || fn.Parent() != nil || fn.Signature.Recv() == nil || !an.NamedIs(fn.Signature.Recv().Type(), load.ModPath, "Conn") {
+			continue
+		}
+		switch an.RefFuncName(fn) {
+		case "do", "ReadBatchWith", "waitResponse":
+			continue
+		}
+		var wait *ssa.Call
+		an.EachInstr(fn, func(ins ssa.Instruction) {
+			if call, ok := ins.(*ssa.Call); ok && call.Parent() == fn && call.Call.StaticCallee() != nil && an.RefFuncName(call.Call.StaticCallee()) == "waitResponse" {
+				wait = call
+			}
+		})
+		if wait == nil {
+			continue
+		}
+		nInline++
+		var okBlk *ssa.BasicBlock
+		for _, b := range an.Blocks(fn) {
+			_, ci := an.IfCond(b)
+			if e := ci.Edge(token.EQL); e >= 0 && an.IsNilConst(ci.Y) {
+				if ex, isEx := an.Unwrap(ci.X).(*ssa.Extract); isEx && ex.Tuple == ssa.Value(wait) {
+					okBlk = b.Succs[e]
+				}
+			}
+		}
+		if okBlk == nil {
+			r.Undecided(rule, an.ShortFunc(fn)+" reads its response inline", p.Pos(fn.Pos()), "the error test of waitResponse was not recognised")
+			continue
+		}
+		q := an.PathQuery{Fn: fn,
+			Stop: func(i ssa.Instruction) bool {
+				call, isC := i.(*ssa.Call)
+				return isC && isConnClose(&call.Call)
+			},
+			Target: func(i ssa.Instruction) bool {
+				ret, isR := i.(*ssa.Return)
+				if !isR || ret.Block() == fn.Recover || len(ret.Results) == 0 {
+					return false
+				}
+				ev := an.RetVal(ret, len(ret.Results)-1)
+				if an.IsNilConst(ev) {
+					return false
+				}
+				if mi, isMI := ev.(*ssa.MakeInterface); isMI && types.Identical(mi.X.Type(), c.errType) {
+					return false // a broker error code: the frame was read
+				}
+				return true
+			}}
+		hit := q.ReachableFrom(an.Point{B: okBlk, Idx: -1})
+		where := ""
+		if hit != nil {
+			where = "the error return at " + p.Pos(hit.Pos()) + " leaves the connection open"
+		}
+		r.Check(hit == nil, rule, an.ShortFunc(fn)+" closes the connection when reading its response fails", p.Pos(wait.Pos()), "c.conn.Close() before every return of a non-broker error after waitResponse succeeded", where)
+	}
+	r.RequireCount(rule+" (inline response readers)", nInline, 1)
 	for _, name := range []string{"(*Conn).doRequest", "(*Conn).waitResponse"} {
 		fn := p.Func("", name)
 		if fn == nil {
